@@ -470,7 +470,12 @@ def main(tier, replay=None):
     if drv is None:
         chk.broke("extracted model driver does not build", l1)
     def build_part(i):
-        return vf.build_harness("c04_init.C", extra_flags=["-DC04_PART=%d" % i], link_lib=True, deps=["c04_allow.inc"], name="c04_init_p%d" % i)
+        for attempt in range(3):
+            b, lg = vf.build_harness("c04_init.C", extra_flags=["-DC04_PART=%d" % i], link_lib=True, deps=["c04_allow.inc"], name="c04_init_p%d" % i)
+            if b is not None or "libgivaro_verif.a" not in lg:
+                break           # (the shared library cache can be pruned by a concurrent check between build and link: rebuild, retry)
+            vf.build_repo_lib()
+        return b, lg
     vf.build_repo_lib()
     with ThreadPoolExecutor(max_workers=len(PARTS)) as ex:
         built = list(ex.map(build_part, range(len(PARTS))))
